@@ -92,7 +92,22 @@ pub fn replay(prop: &str, file: &str) -> i32 {
     let _part = v["part"].as_str().unwrap_or("").to_owned();
     let case = v["case"].clone();
     let strict = KnownFindings::default();
-    let res: Result<(), Failure> = if let Some(o) = hist_opts(prop) {
+    fn parse<T: serde::de::DeserializeOwned>(case: &Value, what: &str) -> Result<T, Failure> {
+        serde_json::from_value::<T>(case.clone()).map_err(|e| Failure::new("replay.parse", what, e.to_string()))
+    }
+    // parts added to a property with their own case types
+    let by_part: Option<Result<(), Failure>> = match (prop, _part.as_str()) {
+        ("C03", "wire") => Some(parse::<c03w::SubCase>(&case, "a C03 wire case").and_then(|c| c03w::check_case(&c).map(|_| ()))),
+        ("C06", "wire") | ("C07", "wire") => Some(parse::<c07w::WireCase>(&case, "a wire session case").and_then(|c| c07w::check_case(&c).map(|_| ()))),
+        ("C13", "lock-contention") => Some(parse::<c13l::LockCase>(&case, "a C13 lock contention case").and_then(|c| c13l::check_case(&c).map(|_| ()))),
+        ("C19", "rounds") => Some(parse::<c19r::RoundsCase>(&case, "a C19 rounds case").and_then(|c| c19r::check_case(&c).map(|_| ()))),
+        ("C10", "process") => Some(parse::<c18::Case>(&case, "a C10 process case").and_then(|c| c18::check_case_on(&c, &strict, c18::Backend { mode: "Json", interval_s: 1, prop: "C10" }).map(|_| ()))),
+        ("C02", "threaded") | ("C02", "client_update") => None,
+        _ => None,
+    };
+    let res: Result<(), Failure> = if let Some(r) = by_part {
+        r
+    } else if let Some(o) = hist_opts(prop) {
         replay_history(&case, &o, &strict, prop)
     } else {
         match prop {
